@@ -32,8 +32,8 @@ ASSUMPTIONS = [
 
 
 def plan(tier, seed):
-    n = 110 if tier == "quick" else 2500
-    return [{"name": "hier-%d" % p, "n": n} for p in range(12 if tier == "quick" else 16)]
+    n = 300 if tier == "quick" else 5000
+    return [{"name": "hier-%d" % p, "n": n} for p in range(16)]
 
 
 def _span_frames(ivs, fs):
